@@ -103,3 +103,26 @@ package art
 //@   ensures keylimit: len(key) > MaxKeyLen ==> result != nil && t.WriteSeqNo == old(t.WriteSeqNo)
 //@   ensures entrylimit: len(key) <= MaxKeyLen && value != nil && uint64(len(key) + len(value)) > old(t.entrySizeLimit) ==> result != nil && t.WriteSeqNo == old(t.WriteSeqNo)
 //@   ensures accepted: len(key) <= MaxKeyLen && (value == nil || uint64(len(key) + len(value)) <= old(t.entrySizeLimit)) ==> t.WriteSeqNo == old(t.WriteSeqNo) + 1 && (result != nil) == (uint64(t.size) > t.bufferSizeLimit)
+
+// ---- nested staging: the stack of checkpoints and the dirty mark (C08; same contract as the red-black tree's) --------------
+//@ func (*ART) IsStaging
+//@   prop C08
+//@   ensures result == (len(t.stages) > 0)
+//@ func (*ART) Staging
+//@   prop C08
+//@   opaque-callee checkpoint
+//@   ensures pushed: result == old(len(t.stages)) + 1 && len(t.stages) == result && t.dirty == old(t.dirty)
+//@ func (*ART) Release
+//@   prop C08
+//@   may-panic
+//@   opaque-callee checkpoint IsSamePosition
+//@   ensures noop: h == 0 ==> len(t.stages) == old(len(t.stages)) && t.dirty == old(t.dirty) && t.WriteSeqNo == old(t.WriteSeqNo)
+//@   ensures popped: h != 0 ==> h == old(len(t.stages)) && len(t.stages) == h - 1
+//@   ensures inner: h != 1 ==> t.dirty == old(t.dirty)
+//@   ensures mono: old(t.dirty) ==> t.dirty
+//@ func (*ART) Cleanup
+//@   prop C08
+//@   may-panic
+//@   opaque-callee checkpoint IsSamePosition RevertToCheckpoint Truncate OnMemChange
+//@   ensures noop: h == 0 || h > old(len(t.stages)) ==> len(t.stages) == old(len(t.stages))
+//@   ensures popped: h != 0 && h <= old(len(t.stages)) ==> h == old(len(t.stages)) && len(t.stages) == h - 1
